@@ -191,19 +191,20 @@ PROPS["C20"] = {
 }
 
 PROPS["C12"] = {
-    "ready": False,
     "feature": "c12",
     "tiers": tiers("C12"),
     "mem_gb": 20,
+    "overrides": [(r"_t_", {"mem_gb": 40, "timeout": {"quick": 900, "thorough": 5400}})],
     "functions": ["BitAnd/BitOr for &SeqSlice<Iupac>", "Seq::bit_and/bit_or", "contains on Seq<Iupac> and SeqSlice<Iupac>", "Iupac one-hot encoding, complement table"],
-    "bounds": {"all": "symbols: all 256 pairs decided by the solver; sequences: operands of 2-4 symbols at independent concrete offsets from "
-                      "{0,1,3,4,7,9,14,15} (15 = word-straddling) of two symbolic words, result checked position-wise with a symbolic probe; "
-                      "contains incl. both length-mismatch directions"},
+    "bounds": {"quick": "symbols: all 256 pairs decided by the solver (union, intersection, gap for the empty set, complement distributes); sequences: borrowed "
+                        "operands of ONE symbol at independent offsets (0/4 and 15/7, 15 = last symbol of a word), owned operands (bit_or/bit_and) of 2 symbols, "
+                        "contains for 1-symbol operands (borrowed and owned pattern) and a length mismatch; symbolic content, symbolic probe position",
+               "thorough": "adds borrowed operands of 2-4 symbols and contains on 2-3 symbols (each harness needs 20-40 GB and up to an hour: the per-bit "
+                           "remainder loop of bitvec's op-assign on heap bit-vectors is the most expensive path met in this code base)"},
     "outside": "other offsets and longer operands; SeqArray::contains (same body as the slice form)",
 }
 
 PROPS["C06"] = {
-    "ready": False,
     "feature": "c06",
     "tiers": tiers("C06"),
     "mem_gb": 20,
@@ -219,7 +220,6 @@ PROPS["C06"] = {
 }
 
 PROPS["C19"] = {
-    "ready": False,
     "feature": "c19",
     "tiers": tiers("C19"),
     "mem_gb": 16,
@@ -227,20 +227,19 @@ PROPS["C19"] = {
     "bounds": {"all": "symbol maps: exhaustive by solver (4 bases; all 256 text bytes); conversions: windows of 2-3 Dna symbols at concrete offsets incl. the "
                       "word-straddling one, symbolic content; trimming: byte strings of length 0..4 with ONE fully symbolic byte (all 256 values) at each "
                       "position among concrete neighbours chosen to put it at the start, the interior and the end of the acceptable span"},
-    "outside": "byte strings with two or more simultaneously symbolic bytes (the builder state then becomes symbolic and does not finish, see DESIGN 2.6)",
+    "outside": "trimming of arbitrary byte strings (only concrete representatives are executed); conversions of longer sequences",
+    "assumptions": ["the trimming clause of the property is exercised on concrete representative inputs only; it is not claimed for all byte strings"],
 }
 
 PROPS["C18"] = {
-    "ready": False,
     "feature": "c18",
     "tiers": tiers("C18"),
     "mem_gb": 20,
     "functions": ["derive(Serialize, Deserialize) on Kmer (storage integer) and Seq (bitvec serde impl: order, head, bits, data)", "bincode 1.3 serialize/deserialize"],
-    "bounds": {"all": "bincode only. k-mers: storage integer fully symbolic for the listed (codec,K,storage); owned sequences of 0-3 symbols with symbolic content, "
-                      "with and without spare capacity"},
-    "outside": "JSON (serde_json text formatting/parsing: not applicable to this technique); sequences whose bit vector has a non-zero head (not constructible "
-               "through bio-seq's API after the D2 fix except via From<BitVec>)",
-    "assumptions": ["the JSON half of the property is NOT covered (text formatting is outside symbolic execution's reach)"],
+    "bounds": {"all": "bincode only, k-mers only: storage integer fully symbolic for the listed (codec,K,storage) incl. K*BITS equal to the storage width"},
+    "outside": "JSON (serde_json text formatting/parsing: not applicable to this technique); owned sequences (bitvec's serde impl for BitVec - type-name strings, "
+               "nested structs, element sequence - did not finish for even the empty sequence: 15 min / 11 GB)",
+    "assumptions": ["the JSON half and the Seq half of the property are NOT covered; only the k-mer/bincode quarter is decided"],
 }
 
 import c17stage
